@@ -220,6 +220,27 @@ func runVariants(cs []core.Case, every int, kinds ...string) []core.Case {
 			}
 			out = append(out, cp)
 		}
+		// signing only: the party count handed to tss.NewParameters is the committee size of the key, or one more than
+		// the number of signers, instead of the number of signers (the signing code has no use for it)
+		if nn, ok := c.P["n"]; ok && c.Kind == "sign" {
+			if sg, ok2 := c.P["signers"].([]int); ok2 {
+				pc := 0
+				if v, isInt := nn.(int); isInt {
+					pc = v
+				}
+				if pc == len(sg) {
+					pc = len(sg) + 1
+				}
+				cp := c
+				cp.ID, cp.Class = fmt.Sprintf("%s/party-count=%d", c.ID, pc), fmt.Sprintf("%s/party-count=%d", c.Class, pc)
+				cp.P = core.P{}
+				for k, val := range c.P {
+					cp.P[k] = val
+				}
+				cp.P["pcount"] = pc
+				out = append(out, cp)
+			}
+		}
 	}
 	return out
 }
